@@ -327,11 +327,12 @@ def _arr(name, log):
     return o
 
 
-@rule("C16.index-uniform", props=["C16"], min_instances=14, mutants=[
+@rule("C16.index-uniform", props=["C16"], min_instances=16, mutants=[
+    ("a number among array coefficients is indexed like an array", ("multivector", "value if isinstance(value, Number) else value[item] for value in values", "value[item] for value in values")),
     ("a list index is spread over several axes", ("multivector", "    def __getitem__(self, item):\n        if not isinstance(item, tuple):", "    def __getitem__(self, item):\n        if not isinstance(item, (tuple, list)):")),
     ("a list index of an assignment is spread over several axes", ("multivector", "        if not isinstance(indices, tuple):\n            indices = (indices,)", "        if not isinstance(indices, (tuple, list)):\n            indices = (indices,)")),
     ("ndarray assignment through an ellipsis", ("multivector", "            self.values()[(slice(None), *indices)] = values", "            self.values()[(..., *indices)] = values")),
-    ("getitem indexes only with the first index", ("multivector", "            return_values = values.__class__(value[item] for value in values)", "            return_values = values.__class__(value[item[0]] for value in values)")),
+    ("getitem indexes only with the first index", ("multivector", "value if isinstance(value, Number) else value[item] for value in values)", "value if isinstance(value, Number) else value[item[0]] for value in values)")),
     ("setitem pairs coefficients in reversed order", ("multivector", "            for self_values, other_value in zip(self.values(), values):", "            for self_values, other_value in zip(self.values(), reversed(values)):")),
     ("setitem skips the key check", ("multivector", "            if self.keys() != values.keys():\n                raise ValueError('setitem with a multivector is only possible for equivalent MVs.')", "            if len(self.keys()) != len(values.keys()):\n                raise ValueError('setitem with a multivector is only possible for equivalent MVs.')")),
 ])
@@ -379,6 +380,24 @@ def index_uniform(ctx):
         else:
             ctx.violation(c, f"mv[{item!r}] on ndarray-backed coefficients indexes the array with {seen.get('idx')!r}; expected "
                              f"(slice(None), *index) = {(SL,) + want_idx!r} - the first axis enumerates the blades", fn)
+    # a plain number among array coefficients (what `array-valued + 2.5` stores on the scalar blade) stands for that number at
+    # every index: indexing keeps it
+    fn = ctx.func(f"{M}.__getitem__")
+    for label, item, want_idx in (("int", 1, (1,)), ("tuple", (1, 0), (1, 0))):
+        c = f"{M}.__getitem__#number among arrays:{label}"
+        log = []
+        mv = mv_obj(alg, (0, 1, 6), [2.5, _arr("A1", log), _arr("A2", log)])
+        try:
+            out = make_interp(repo).run(f"{M}.__getitem__", [mv, item])
+        except NoValue as exc:
+            raise Unknown(c, str(exc), fn)
+        got = [val_repr(v) if isinstance(v, Obj) else v for v in out[1].attrs.get("_values", [])] if out[0] == "return" and isinstance(out[1], Obj) else None
+        if got == [2.5, f"A1[{want_idx!r}]", f"A2[{want_idx!r}]"] and tuple(out[1].attrs.get("_keys", ())) == (0, 1, 6):
+            ctx.ok(c, fn)
+        else:
+            ctx.violation(c, f"mv[{item!r}] of a multivector storing the number 2.5 next to array coefficients (the result of `arrays + 2.5`) "
+                             f"gives {got if got is not None else out!r}; expected the number kept and every array indexed: indexing the result of an "
+                             f"operator must equal the operator on the indexed operands", fn)
     # __setitem__
     fn = ctx.func(f"{M}.__setitem__")
     for label, indices, want_idx in (("int", 0, (0,)), ("tuple", (1, 2), (1, 2)), ("list (fancy index of one axis)", [0, 2], ([0, 2],))):
@@ -433,9 +452,10 @@ def Val_(name):
     return Val(name)
 
 
-@rule("C16.itermv", props=["C16", "C20"], min_instances=3, mutants=[
+@rule("C16.itermv", props=["C16", "C20"], min_instances=4, mutants=[
     ("itermv iterates the first trailing axis only", ("multivector", "                for indices in product(*(range(n) for n in shape))", "                for indices in product(*(range(n) for n in shape[:1]))")),
-    ("shape of list-backed coefficients omits the blade axis", ("multivector", "            return len(self), *self._values[0].shape", "            return self._values[0].shape")),
+    ("shape of list-backed coefficients omits the blade axis", ("multivector", "            return len(self), *shapes[0]", "            return shapes[0]")),
+    ("shape looks at the first coefficient only", ("multivector", "        elif shapes := [v.shape for v in self._values if getattr(v, 'shape', ())]:", "        elif shapes := [v.shape for v in self._values[:1] if getattr(v, 'shape', ())]:")),
 ])
 def itermv(ctx):
     """shape = (number of blades, *trailing shape) and itermv yields one multivector per trailing index, each
@@ -451,10 +471,30 @@ def itermv(ctx):
         o = Obj("ndarray-element", {"fmt": name, "shape": shape})
         o.getitem = lambda idx: Val_(f"{name}[{idx!r}]")
         return o
-    for label, shape in (("trailing shape (2,)", (2,)), ("trailing shape (2, 3)", (2, 3)), ("scalar coefficients", None)):
+    for label, shape in (("trailing shape (2,)", (2,)), ("trailing shape (2, 3)", (2, 3)), ("scalar coefficients", None),
+                         ("a plain number before the arrays, trailing shape (2,)", (2,))):
         c = f"{M}.itermv#{label}"
         fn = ctx.func(f"{M}.itermv")
         vals = [arr("X", shape), arr("Y", shape)] if shape else [Val_("X"), Val_("Y")]
+        if label.startswith("a plain number"):
+            # the scalar blade of `arrays + 2.5`: the multivector is array-valued all the same
+            mv = mv_obj(alg, (0, 1, 2), [2.5] + vals)
+            it = make_interp(repo)
+            try:
+                sh = it._instance_attr(mv, "shape")
+                out = it.run(f"{M}.itermv", [mv])
+            except NoValue as exc:
+                raise Unknown(c, str(exc), fn)
+            want = [[2.5, f"X[{(i,)!r}]", f"Y[{(i,)!r}]"] for i in range(2)]
+            got = None
+            if out[0] == "return" and isinstance(out[1], list):
+                got = [[val_repr(v) if isinstance(v, Obj) else v for v in m.attrs["_values"]] for m in out[1] if isinstance(m, Obj)]
+            if tuple(sh) == (3, 2) and got == want:
+                ctx.ok(c, fn)
+            else:
+                ctx.violation(c, f"a multivector storing a plain number next to arrays of shape (2,) has shape {tuple(sh)} and itermv yields "
+                                 f"{got if got is not None else out!r}; expected shape (3, 2) and one multivector per index with the number kept: {want}", fn)
+            continue
         mv = mv_obj(alg, (1, 2), vals)
         it = make_interp(repo)
         try:
